@@ -181,3 +181,33 @@ package parser
 // constant keyword table: they mention no other package-level variable (no memo table or cache shared between lexers).
 //@ func startsWithKeyword
 //@   structure uses-only-globals keywords
+
+// Every action of a token that ends a line leaves the recorded width at zero: the width of the next line is measured
+// afresh (a blank-looking token can also be the trailing blanks that end a code line).
+//@ func (*SyslLexer).EMPTY_COMMENT_Action
+//@   maypanic
+//@   ensures [line-end-resets-the-width] ls(l).spaces == 0
+//@ func (*SyslLexer).EMPTY_LINE_Action
+//@   maypanic
+//@   ensures [line-end-resets-the-width] ls(l).spaces == 0
+//@ func (*SyslLexer).INDENTED_COMMENT_Action
+//@   maypanic
+//@   ensures [line-end-resets-the-width] ls(l).spaces == 0
+//@ func (*SyslLexer).NEWLINE_Action
+//@   maypanic
+//@   ensures [line-end-resets-the-width] actionIndex == 11 ==> ls(l).spaces == 0
+//@ func (*SyslLexer).NEWLINE_2_Action
+//@   maypanic
+//@   ensures [line-end-resets-the-width] ls(l).spaces == 0
+//@ func (*SyslLexer).E_INDENTED_COMMENT_Action
+//@   maypanic
+//@   ensures [line-end-resets-the-width] ls(l).spaces == 0
+//@ func (*SyslLexer).E_EMPTY_LINE_Action
+//@   maypanic
+//@   ensures [line-end-resets-the-width] ls(l).spaces == 0
+//@ func (*SyslLexer).E_NL_Action
+//@   maypanic
+//@   ensures [line-end-resets-the-width] actionIndex == 25 ==> ls(l).spaces == 0
+//@ func (*SyslLexer).TMPL_NL_Action
+//@   maypanic
+//@   ensures [line-end-resets-the-width] ls(l).spaces == 0
